@@ -1,7 +1,138 @@
-//! (stub - filled in by the corresponding check)
+//! spec -> impl replay of feature packing and the distance functions (spec/feature/GenF.tla) - property C16.
+//!
+//! A case carries two integer vectors in packed (zero padded) form, the admissible packed lengths, a unit
+//! exponent `e` (a value v stands for the float v * 2^e - exact in f32), a positive factor `k`, and for each
+//! query (x, y) over the names a, b, ka, nka the exact integers sum (x-y)^2, x.y, |x|^2, |y|^2 over the common
+//! packed prefix as computed by TLC from Feature.tla.  The harness builds the floats, calls the real
+//! `Feature::from_vec` (by value and by reference), `Vec::from_vec(&Feature)`, `euclidean`, `cosine`, and
+//! compares: packing bit for bit, euclidean against sqrt(sq) * 2^e and cosine against dot / sqrt(nx ny) with
+//! 1e-5 relative tolerance.
 use crate::common::*;
+use serde_json::{json, Value};
+use similari::distance::{cosine, euclidean};
+use similari::track::utils::FromVec;
+use similari::track::Feature;
 
-pub fn main(_opts: &Opts) {
-    eprintln!("vh: engine not built yet");
-    std::process::exit(2);
+const REL: f64 = 1e-5;
+
+fn ints(v: &Value, k: &str) -> Vec<i64> {
+    jarr(v, k).iter().map(ji).collect()
+}
+
+fn floats(v: &[i64], mul: i64, unit: f64) -> Vec<f32> {
+    v.iter().map(|x| ((*x * mul) as f64 * unit) as f32).collect()
+}
+
+/// packing round trip of one vector; `padded` is the spec's packed form, `n` the original length
+fn check_pack(name: &str, padded: &[i64], n: usize, lens: &[i64], unit: f64, grow: usize) -> Option<(String, Value)> {
+    let orig = floats(&padded[..n], 1, unit);
+    let by_ref: Feature = Feature::from_vec(&orig);
+    let by_val: Feature = Feature::from_vec(orig.clone());
+    let back: Vec<f32> = Vec::from_vec(&by_ref);
+    let back_val: Vec<f32> = Vec::from_vec(&by_val);
+    if back.iter().map(|x| x.to_bits()).ne(back_val.iter().map(|x| x.to_bits())) {
+        return Some((format!("from_vec:{}:by-value differs from by-reference", name), json!({"ref": back, "val": back_val})));
+    }
+    if back.len() != by_ref.len() * 8 {
+        return Some((format!("from_vec:{}:blocks", name), json!({"blocks": by_ref.len(), "values": back.len()})));
+    }
+    if !lens.iter().any(|l| *l as usize + grow == back.len()) {
+        return Some((format!("from_vec:{}:packed length", name), json!({"spec": lens, "impl": back.len(), "n": n})));
+    }
+    for (i, got) in back.iter().enumerate() {
+        let exp = if i < padded.len() { (padded[i] as f64 * unit) as f32 } else { 0.0 };
+        if got.to_bits() != exp.to_bits() && !(exp == 0.0 && *got == 0.0) {
+            return Some((format!("from_vec:{}:lane contents", name), json!({"lane": i, "spec": exp, "impl": got})));
+        }
+    }
+    None
+}
+
+fn close(got: f64, exp: f64, floor: f64) -> bool {
+    got.is_finite() && (got - exp).abs() <= REL * exp.abs() + floor
+}
+
+pub fn replay_case(idx: usize, c: &Value, rep: &mut Report, perturb: usize) {
+    rep.cases += 1;
+    rep.sample(c);
+    let (n1, n2) = (jint(c, "n1") as usize, jint(c, "n2") as usize);
+    let unit = 2f64.powi(jint(c, "e") as i32);
+    let k = jint(c, "k");
+    let (pa, pb) = (ints(c, "pa"), ints(c, "pb"));
+    let (la, lb) = (ints(c, "la"), ints(c, "lb"));
+    // non-trivial: padding needed (a length that is not a multiple of the lane width) or truncation
+    // (different packed lengths); lane boundaries and empty vectors are counted separately
+    let trunc = n1 > 0 && n2 > 0 && pa.len() != pb.len();
+    if n1 % 8 != 0 || n2 % 8 != 0 || trunc {
+        rep.nontrivial += 1;
+    }
+    if [n1, n2].iter().any(|n| [0usize, 1, 7].contains(&(n % 8)) && *n > 0) {
+        rep.count("lane_boundary", 1);
+    }
+    if trunc {
+        rep.count("truncation", 1);
+    }
+    if n1 == 0 || n2 == 0 {
+        rep.count("empty_vector_packing_only", 1);
+    }
+    let grow = if perturb == 2 { 8 } else { 0 };
+    for (name, p, n, l) in [("a", &pa, n1, &la), ("b", &pb, n2, &lb)] {
+        rep.steps += 1;
+        match std::panic::catch_unwind(|| check_pack(name, p, n, l, unit, grow)) {
+            Ok(None) => {}
+            Ok(Some((sig, d))) => return rep.mismatch(&sig, idx, c, d),
+            Err(_) => return rep.mismatch("from_vec:panic", idx, c, json!({"vector": name})),
+        }
+    }
+    let vec_of = |name: &str| -> Vec<f32> {
+        match name {
+            "a" => floats(&pa[..n1], 1, unit),
+            "b" => floats(&pb[..n2], 1, unit),
+            "ka" => floats(&pa[..n1], k, unit),
+            "nka" => floats(&pa[..n1], -k, unit),
+            o => panic!("vector name {}", o),
+        }
+    };
+    for q in jarr(c, "q") {
+        let (xn, yn) = (jstr(q, "x"), jstr(q, "y"));
+        let (x, y) = (vec_of(xn), vec_of(yn));
+        let r = std::panic::catch_unwind(|| {
+            let (fx, fy) = (Feature::from_vec(&x), Feature::from_vec(&y));
+            (euclidean(&fx, &fy) as f64, cosine(&fx, &fy) as f64)
+        });
+        let (eu, cs) = match r {
+            Ok(v) => v,
+            Err(_) => return rep.mismatch("distance:panic", idx, c, json!({"x": xn, "y": yn})),
+        };
+        rep.steps += 1;
+        let sq = jint(q, "sq") + if perturb == 1 { 1 } else { 0 };
+        let exp = (sq as f64).sqrt() * unit;
+        if !close(eu, exp, 1e-6 * unit) {
+            let sig = format!("euclidean:{}", if xn == yn { "self distance not 0" } else { "differs from sqrt(sum (x-y)^2)" });
+            return rep.mismatch(&sig, idx, c, json!({"x": xn, "y": yn, "spec": exp, "impl": eu}));
+        }
+        if jint(q, "cos") == 1 {
+            rep.steps += 1;
+            rep.count("cosine_compared", 1);
+            let dot = jint(q, "dot") + if perturb == 3 { 1 } else { 0 };
+            let exp = dot as f64 / ((jint(q, "nx") as f64) * (jint(q, "ny") as f64)).sqrt();
+            if !(cs.is_finite() && (cs - exp).abs() <= REL) {
+                let kind = match (xn, yn) {
+                    ("ka", "a") => "parallel not 1",
+                    ("nka", "a") => "opposite not -1",
+                    (a, b) if a == b => "self not 1",
+                    _ => "differs from x.y / (|x| |y|)",
+                };
+                return rep.mismatch(&format!("cosine:{}", kind), idx, c, json!({"x": xn, "y": yn, "spec": exp, "impl": cs}));
+            }
+        }
+    }
+}
+
+pub fn main(opts: &Opts) {
+    // --perturb 1|2|3: liveness demonstration only (corrupts the expected sum of squares / packed length / dot product)
+    let perturb = opts.usize("perturb", 0);
+    let mut rep = Report::new();
+    for_each_case(opts, |idx, c| replay_case(idx, &c, &mut rep, perturb));
+    rep.finish();
 }
